@@ -105,6 +105,26 @@ def float_rules(ctx, prog, md, prec, pow_uses):
                   'rounds to 10^prec and is printed as a short digit string (0.95 at precision 1 -> "0.1")'
                   % (w.text(), tests[0].text(), bad[0] if bad else '?'),
                   cfg.describe_path(bad[1]) if bad else None)
+    # R08.6 the digit loop consumes the scaled fraction (it ends when the fraction is 0): any later read of it sees a constant 0, so a decision
+    # taken on it after the loop (e.g. about the sign) silently ignores the fraction
+    loops = [n for n in md.all_nodes() if n.k in ('DoStmt', 'WhileStmt', 'ForStmt') and n.child('cond') is not None and
+             any(x.k == 'CompoundAssignOperator' and x.op == '/=' and q.refers_to_decl(x.children[0], frac) for x in n.child('cond').walk())]
+    ctx.need(len(loops) == 1, 'modp_dtoa: the fraction digit loop (ends on `frac /= 10`) not found')
+    lp = loops[0]
+    inside = set(x for x in lp.walk())
+    cb = [b for b in cfg.blocks if cfg.cond_node(b) is not None and cfg.cond_node(b) in inside and
+          any(x.k == 'CompoundAssignOperator' and x.op == '/=' for x in cfg.cond_node(b).walk())]
+    ctx.need(cb, 'modp_dtoa: digit loop condition is not a branch')
+    after = set()
+    for t in q.edge_targets(cfg, cb[0], False):
+        after |= cfg.reach_from(t) | {t}
+    stale = [n for n in md.all_nodes() if n.k == 'DeclRefExpr' and n.declid == frac and n not in inside and cfg.has_vertex(n) and cfg.vertex_of(n) in after
+             and q.is_write_target(n) is None]
+    # reads inside the loop body re-entered through the back edge are `inside`; what is left is really after the loop
+    ctx.check(not stale, 'R08.6', 'modp_dtoa#fraction-read-after-consumed', (stale[0].loc if stale else lp.loc),
+              'the scaled fraction is not read again after the digit loop has reduced it to 0',
+              'the scaled fraction is read at %s after the digit loop has divided it down to 0: the test is constant and whatever it decides (here the sign '
+              'of a value below 1) ignores the fraction: -0.25 is rendered "0.25"' % (stale[0].loc if stale else ''))
     # the carry test must reset the fraction and carry into the whole part
     for i, t in enumerate(tests):
         tvx = cfg.vertex_of(t)
@@ -182,6 +202,38 @@ def run(ctx):
             if (sh == [1, 3] or mul) and zero:
                 ok = True
         ctx.check(ok, 'R08.2', fa.q + '#times-ten', fa.loc, 'each step is r·10 + (digit − \'0\')')
+        # R08.7 a cap on the number of digits parsed must leave room for every digit the renderer can emit, on the signed path too
+        pstr = fa.param_ids[0]
+        rt = fa.tu.types[fa.raw['ret']] if 'ret' in fa.raw else {}
+        bits, sgn = rt.get('bits', 32), rt.get('signed', True)
+        maxdig = len(str((1 << (bits - (1 if sgn else 0))) - 1)) if bits else 10
+        fcfg = fa.cfg
+        incs = {fcfg.vertex_of(n) for n in fa.all_nodes() if n.k == 'UnaryOperator' and n.op == '++' and q.refers_to_decl(n.children[0], pstr) and fcfg.has_vertex(n)}
+        capped = 0
+        for (b, a, pol) in q.branches(fa, lambda a: a.strip(casts=True).k == 'BinaryOperator' and a.strip(casts=True).op in ('!=', '<', '==', '>=') and
+                                      any(q.refers_to_decl(x, pstr) for x in a.strip(casts=True).children)):
+            t = a.strip(casts=True)
+            other = [x for x in t.children if not q.refers_to_decl(x, pstr)]
+            if not other or other[0].strip(casts=True).k != 'DeclRefExpr':
+                continue
+            ld = other[0].strip(casts=True).declid
+            defs = q.local_defs(fa, ld)
+            if len(defs) != 1 or defs[0][2] is None:
+                continue
+            lf = q.linear(defs[0][2], sym=lambda x: 'STR' if q.refers_to_decl(x, pstr) else x.text())
+            if lf.t != {'STR': 1}:
+                continue
+            capped += 1
+            K = lf.c
+            # increments of str between the cap's definition and the first evaluation of this loop condition
+            cv = fcfg.block_last[b]
+            mn, mx = q.count_on_paths(fcfg, fcfg.vertex_of(defs[0][0]), incs, stop=lambda v, _cv=cv: v == _cv)
+            ctx.check(K - mx >= maxdig, 'R08.7', fa.q + '#digit-cap@%d' % capped, a.loc,
+                      'digit cap: %d characters from the start, at most %d skipped before the loop, %d digits needed' % (K, mx, maxdig),
+                      'the parser stops after %d characters counted from the start of the text, but up to %d character(s) (the sign) are skipped before the digit loop: '
+                      'only %d digits of a %d-digit value are read (INT_MIN parses as -214748364)' % (K, mx, K - mx, maxdig))
+        if not capped:
+            ctx.ok('R08.7', fa.q + '#digit-cap', fa.loc, 'the parser has no cap on the number of digits (it reads to the terminator)')
     # ---------------- R08.3 modp_dtoa
     md = prog.fn1('modp_dtoa')
     ctx.saw(md)
@@ -227,3 +279,5 @@ def run(ctx):
     ctx.floor('R08.3', 3)
     ctx.floor('R08.4', 2)
     ctx.floor('R08.5', 3)
+    ctx.floor('R08.6', 1)
+    ctx.floor('R08.7', 1)
